@@ -129,7 +129,7 @@ QUICK_CLOSED = [("Z1", dict(n=2)), ("Z2", dict(n=2)), ("Z3", dict(n=2)), ("Z4", 
                 ("Z5c", dict(n=3, m=1)), ("Z5c", dict(n=2, m=0)),
                 # empty streams: no file source item, no parameter value, one of two ports empty, a leaf driver with nothing to do
                 ("Z1", dict(n=0)), ("Z3", dict(n=0)), ("Z5", dict(n=3, m=0)), ("Z6", dict(n=0)), ("Z9", dict(n=0)), ("Z16", dict(n=0)),
-                ("Z20", dict(n=3, buf=1)),
+                ("Z20", dict(n=3, buf=1)), ("Z21", dict(n=3, buf=1)),
                 # combinators inside the dataflow: three-port ParamCombinator, partly consumed ParamCombinator, FileCombinator with independent
                 # upstreams and with one shared upstream (at its documented limit: as many items as the buffer holds)
                 ("PC3", dict(nx=1, ny=1, nz=2)), ("PC2S", dict(n=2)), ("FC2", dict(n=2, m=2)), ("FCS", dict(n=2, buf=2))]
@@ -191,7 +191,11 @@ def check_C05(tier):
               # an extra file that cannot be moved out (a directory of the same name is in the way)
               ("Z1", dict(n=2), dict(ctl={"b.extra": "report"}, mkdirs=["report"])),
               ("Z13", dict(n=4, mx=3)), ("Z13", dict(n=3, mx=4)),
-              ("Z20", dict(n=10, buf=2)), ("Z20", dict(n=6, buf=1)), ("Z20", dict(n=12, buf=3, mx=4))]
+              ("Z20", dict(n=10, buf=2)), ("Z20", dict(n=6, buf=1)), ("Z20", dict(n=12, buf=3, mx=4)),
+              ("Z21", dict(n=6, buf=2)), ("Z21", dict(n=5, buf=1)),
+              # RunTo / RunToRegex: the run set ends in the middle of the graph, more results than buffer slots on the cut connections
+              ("Z1", dict(n=5, buf=2), dict(mode="runto", targets=["a"])), ("Z3", dict(n=4, buf=1), dict(mode="runto", targets=["a", "b"])),
+              ("Z16", dict(n=5, buf=2), dict(mode="runto", targets=["a"])), ("Z2", dict(n=4, buf=1), dict(mode="runto", targets=["b"]))]
     def post(chk):
         from .slots import shared_output_scenario
         shared_output_scenario(chk, what="two tasks mapping to the same output file compete for one slot: Run never returned")
